@@ -1,14 +1,20 @@
 #!/bin/bash
-# partitioned selftest over scratch worktrees; merges into /verif/evidence/selftest.json
-cd /verif
-wts=(/tmp/mut_repo /tmp/seed_H2 /tmp/seed_R7_C01 /tmp/seed_R7_C03 /tmp/seed_R7_C06 /tmp/seed_R7_C09 /tmp/seed_R7_C13 /tmp/seed_R8_C12)
-n=${#wts[@]}
-for w in "${wts[@]}"; do git -C $w checkout -q -- . ; rm -f $w/scnr/tests/seed_demo.rs; done
-names=( $(ls -d seeded/C* | xargs -n1 basename) H1 H2 H3 H4 H5 H6 H11 H12 H13 H14 H15 H16 H17 H18 H19 H20 )
+# Re-runs every stored seeded change (seeded/C*) and every harmless refactoring (seeded/harmless/H*) against the current machinery, partitioned over
+# scratch worktrees of /repo (created under /tmp and removed afterwards; /repo itself is not touched), and merges the results into evidence/selftest.json.
+# usage: tools/selftest_all.sh [partitions=3]      (about 3 minutes per change and partition on 16 cores; do not oversubscribe: 3-4 partitions)
+cd "$(dirname "$0")/.."
+n=${1:-3}
+names=( $(ls -d seeded/C* | xargs -n1 basename) $(ls seeded/harmless/H*_patch.diff | xargs -n1 basename | sed 's/_patch.diff//') )
 for ((i=0;i<n;i++)); do
+  wt=/tmp/selftest_wt_$i
+  git -C /repo worktree remove --force $wt 2>/dev/null
+  git -C /repo worktree add -q --detach $wt HEAD || exit 2
   part=()
   for ((j=i;j<${#names[@]};j+=n)); do part+=("${names[$j]}"); done
-  ( VERIF_REPO=${wts[$i]} VERIF_BUILD=/tmp/st_build_$i python3 tools/selftest.py --out /tmp/selftest_part_$i.json "${part[@]}" > /tmp/selftest_part_$i.log 2>&1 ) &
+  ( VERIF_REPO=$wt VERIF_BUILD=/tmp/selftest_build_$i python3 tools/selftest.py --out /tmp/selftest_part_$i.json "${part[@]}" > /tmp/selftest_part_$i.log 2>&1 ) &
 done
 wait
 python3 tools/selftest.py --merge $(for ((i=0;i<n;i++)); do echo /tmp/selftest_part_$i.json; done)
+rc=$?
+for ((i=0;i<n;i++)); do git -C /repo worktree remove --force /tmp/selftest_wt_$i; rm -rf /tmp/selftest_build_$i; done
+exit $rc
